@@ -63,7 +63,21 @@ CHECKS = {
    technique="property-based testing (Hypothesis @given): generated product-measure / scenario shapes; oracle = Python model of the documented parameter layout and point order (itertools.product), explicit math.fsum sums; round-trip (metamorphic) relations compared by value",
    text="Generated shapes (1-3 factor measures of 1-4 points, unequal sizes, size 1, zero weights, ties, attached values): flatten/load/unflatten round trips, compose/decompose and _pack/_unpack inverses, update() changing exactly the addressed slots, product weights = products of factor weights in the documented first-factor-fastest order, positions = Cartesian product, mass per factor, expect/expect_var/pof/support and per-measure center_mass/range/var/extrema against explicit weighted sums, and the center_mass/range/var setters reaching their value while keeping what impose_* promises. Exploration only.",
    note="Trusted: itertools/math.fsum model; point order taken from the _pack docstring example. Sums compared with rel 1e-9 + cancellation-aware absolute term; setters rel 1e-7.",
-   design="DESIGN.md section 5, C19"),
+   design="DESIGN.md section 5, C19"), 'C15': dict(
+   technique="property-based testing (Hypothesis @given) and a stateful RuleBasedStateMachine over iter/store/clear/evaluate sequences; oracle = the documented penalty expressions computed directly plus a Python model of the iteration count and stored multipliers",
+   text="All nine penalty types with generated conditions (linear forms and forms dividing by a coordinate), k, h, nesting depth 1-3 and points on both sides of and exactly on the boundary: each level's value equals the decorated value plus the documented expression (k*h^n*f^2, k*h^n*|f|, uniform, 2k-factor inequality forms, the log barrier, both augmented Lagrangians with the multiplier recursion), exactly the decorated value where satisfied and strictly larger where violated (for the types and states where the docstrings promise it), error(x) = violation magnitude combined in quadrature through nesting, iter()/iter(i)/store()/clear() follow the model through nested penalties and clear() restores the n=0 value bit for bit, stacked penalties add, division by zero gives inf. Exploration only.",
+   note="Trusted: the harness's reading of each docstring formula. Scope: the blanket 'no penalty where satisfied' clause is not demanded of barrier_inequality nor of Lagrange types with non-zero stored multipliers (documented formula is the oracle there); undefined sums (0*inf, inf-inf) are excluded and counted.",
+   design="DESIGN.md section 5, C15"),
+ 'C18': dict(
+   technique="property-based testing (Hypothesis @given), six generated families; oracle = textbook weighted definitions computed independently with math.fsum / exact rational trimming fractions; target-reached and what-is-kept relations for impose_*",
+   text="Generated samples (length 2-10, ties) and weights (positive, exact zeros, None): mean/variance/std/moment/spread/norm/support/extrema/ess_*/expectation/expected_variance, median/mad/tmean/tvariance, Lnorm and the distance metrics against explicit formulas; impose_mean/variance/std/spread/moment/median/mad/tmean/tvariance reach their target and keep what the docstrings promise; normalize/impose_sum/impose_product/impose_weight_norm reach totals; impose_support/unweighted/collapse zero exactly the designated weights, conserve total weight and weighted mean and tie collapsed positions; impose_reweighted_* reach targets. Non-degeneracy is constructed. Exploration only.",
+   note="Trusted: math.fsum oracles, rel 1e-9 / abs 1e-12 against the size of the summed terms (1e-7 for the reweight family). Weighted median asserted through the convention-free half-mass inequality. Two defects found by this check (weighted median, tools.connected) were repaired.",
+   design="DESIGN.md section 5, C18"),
+ 'C20': dict(
+   technique="stateful property-based testing (Hypothesis RuleBasedStateMachine) against a plain-list model for monitor operations, plus @given round-trip tests for log files and raw/support/converge files",
+   text="State machine over pools of Monitor/VerboseMonitor/LoggingMonitor/VerboseLoggingMonitor with k in {None,1,-1,2,0.5,3}: record (lists/tuples/arrays, python/numpy scalars, 0-d arrays, vector costs, inf/nan/+-1e+-300, signed zeros, ids), extend, prepend, +, m[i], slices, index lists, min(): after every operation every monitor equals its list model (y exact for power-of-two k, ulp-bounded for k=3), results share nothing with operands, arguments are bit-unchanged. Log files written by the logging monitors (intervals 1-3, appended/truncated, ids, labels) are read back by logfile_reader/read_history to the same iterations/parameters/costs; write_raw_file/write_support_file/write_converge_file/write_monitor output is read back by the matching readers to the same trajectory, including the documented transpositions. Exploration only.",
+   note="Trusted: the list model; float repr round trip. In-place self-combination (a.prepend(a)) is excluded (does not return). Six defects found by this check were repaired.",
+   design="DESIGN.md section 5, C20"),
 }
 
 NOT_APPLICABLE = {}
